@@ -132,6 +132,8 @@ class Program:
         for b, bb, si, s in cs:
             bp = self.bp(b)
             for site in self.sites(b):
+                if site.ck in ("std::boxed::Box::new", "std::sync::Arc::new", "std::rc::Rc::new"):
+                    continue  # boxing is not a use
                 for ai, a in enumerate(site.term["args"]):
                     t = bp.operand_term(a, site.bb, "term")
                     for st in subterms(t):
